@@ -47,14 +47,14 @@ SetRefused(c) ==
     \/ c.limit > 0 /\ Cardinality(TargetsOfCase(c)) # 1
     \/ c.limit > 0 /\ \E t \in TargetsOfCase(c) : OpsOn(c, t) > c.limit
 
-\* where each operation lands: target -> path -> value | "DEL" (a delete of a path wins over its update)
+\* where each operation lands: target -> path -> value | "DEL" (deletes take effect first: an updated path is updated)
 Landing(c) ==
     [t \in TargetsOfCase(c) |->
         LET mine == {n \in DOMAIN c.ops : EffTarget(c, c.ops[n]) = t}
             dels == {DeleteLanding(EffPath(c, c.ops[n])) : n \in {m \in mine : c.ops[m].op = "delete"}}
             upds == {EffPath(c, c.ops[n]) : n \in {m \in mine : c.ops[m].op = "update"}}
         IN [p \in dels \cup upds |->
-              IF p \in dels THEN "DEL"
+              IF p \notin upds THEN "DEL"
               ELSE LET last == CHOOSE n \in mine : c.ops[n].op = "update" /\ EffPath(c, c.ops[n]) = p
                                    /\ \A m \in mine : (c.ops[m].op = "update" /\ EffPath(c, c.ops[m]) = p) => m <= n
                    IN c.ops[last].val]]
